@@ -150,6 +150,36 @@ def handle (op : String) (args : List String) (impl : Impl) : Option Ans :=
       | _ => "FAIL:decode"
     pure { model := (match m with | some x => "ok " ++ showF x | none => "unmodelled"), spec := sp,
            branch := "accf:" ++ name ++ (if m.isSome then (if cross then ":softf64=hw" else ":softf64!=hw") else "") }
+  | "acc_via", [name, _e] => do
+    -- metamorphic (spec only): a view of an epoch equals the same view of its re-expression in the view's scale;
+    -- durations to 2 ns, doubles to 8 units in the last place (used with ET/TDB epochs)
+    let isDur := name.endsWith "_duration" || name == "to_tt_since_j2k"
+    let sp := match impl with
+      | .ok [x, y] =>
+        if isDur then (match parseDur? x, parseDur? y with
+          | some x, some y => verdict [("canonical", scanon x), ("same_view_of_reexpressed_epoch", decide ((sval x - sval y).natAbs ≤ 2))]
+          | _, _ => "FAIL:decode")
+        else (match parseF? x, parseF? y with
+          | some x, some y =>
+            let bx := x.toBits.toNat; let by' := y.toBits.toNat
+            let close := (bx == by') || (x == y) || (bx / 2 ^ 63 == by' / 2 ^ 63 && (if bx ≥ by' then bx - by' else by' - bx) ≤ 8)
+            verdict [("finite", x.isFinite), ("same_view_of_reexpressed_epoch", close)]
+          | _, _ => "FAIL:decode")
+      | .other w => "FAIL:" ++ w
+      | _ => "FAIL:decode"
+    pure { model := "-", spec := sp, branch := "acc_via:" ++ name }
+  | "accf_rel", [name, _e] => do
+    -- spec only: the float-valued ET/TDB view is the duration-valued one in the stated unit, to 4 ulp
+    let u ← (if name.endsWith "_seconds" then some "s" else if name.endsWith "centuries_since_j2000" then some "cy" else some "d")
+    let uns ← unitNs u
+    let sp := match impl with
+      | .ok [f, d] => (match parseF? f, parseDur? d with
+          | some f, some d => verdict [("within_4_ulp", withinUlps f (sval d) uns 1000000000 4),
+                                        ("proved_bound", Hifi.Spec.toUnitOk 8 uns (sval d) (softOf f))]
+          | _, _ => "FAIL:decode")
+      | .other w => "FAIL:" ++ w
+      | _ => "FAIL:decode"
+    pure { model := "-", spec := sp, branch := "accf_rel:" ++ name }
   | "from_mjd", [ts, x] | "from_jde", [ts, x] => do
     let ts ← TS.ofString? ts; let x ← parseF? x
     let shifted : Float := if op == "from_mjd" then x - 15020.0 else x - 15020.0 - 2400000.5
